@@ -648,11 +648,7 @@ impl World for WorldT {
                 TokenMetadata { decimal: 7, name: SStr::from_str(&env, "Sim Token"), symbol: SStr::from_str(&env, "SIM") },
             ),
         );
-        let zero_account = {
-            use soroban_sdk::xdr::{AccountId, PublicKey, ScAddress, Uint256};
-            Address::try_from_val(&env, &ScVal::Address(ScAddress::Account(AccountId(PublicKey::PublicKeyTypeEd25519(Uint256([0u8; 32])))))).unwrap()
-        };
-        p.push(zero_account);
+        p.push(crate::host::zero_account(&env));
         p.push(crate::host::account_twin(&env, &p[2]));
         p.push(token.clone());
         sim.end_setup();
